@@ -127,8 +127,8 @@ func cmdDump(args []string) int {
 			fmt.Fprintln(os.Stderr, "candidates:", ks)
 			return 2
 		}
-		g := NewGen(E, fn, key, E.contracts.Funcs[key])
-		if err := g.Run(); err != nil {
+		g, err := GenerateStable(E, fn, key, E.contracts.Funcs[key])
+		if err != nil {
 			fmt.Fprintln(os.Stderr, "error:", err)
 			return 2
 		}
